@@ -204,6 +204,20 @@ pub struct InParams {
     pub token: String,
     pub ip: u32,
     pub port: u16,
+    /// The optional fields of an Authorization / Reservation (time-out, maximum number of status
+    /// informations, pump number, expiry date, additional text, card type): None = absent.
+    #[serde(default)]
+    pub opt: Option<OptIn>,
+}
+
+#[derive(Clone, Debug, PartialEq, Serialize, Deserialize)]
+pub struct OptIn {
+    pub timeout: Option<u8>,
+    pub max_status: Option<u8>,
+    pub pump: Option<u8>,
+    pub expiry: Option<u16>,
+    pub text: Option<String>,
+    pub card_type: Option<u8>,
 }
 
 impl InParams {
@@ -218,6 +232,7 @@ impl InParams {
             token: "384HH2".to_string(),
             ip: 0xd5b7_1369,
             port: 30401,
+            opt: None,
         }
     }
 
@@ -242,8 +257,51 @@ impl InParams {
             token,
             ip: rng.next_u64() as u32,
             port: rng.next_u64() as u16,
+            opt: if rng.pct(40) {
+                let some = |rng: &mut Rng| rng.pct(50);
+                Some(OptIn {
+                    timeout: if some(rng) { Some(rng.next_u64() as u8) } else { None },
+                    // small values matter: a terminal may well send more status informations than that
+                    max_status: if some(rng) { Some(*rng.pick(&[0u8, 1, 2, 3, 5, 255])) } else { None },
+                    pump: if some(rng) { Some(rng.next_u64() as u8) } else { None },
+                    expiry: if some(rng) { Some((rng.range(0, 99) * 100 + rng.range(1, 12)) as u16) } else { None },
+                    text: if some(rng) {
+                        let n = *rng.pick(&[0usize, 1, 20, 99, 100, 251, 300, 999]);
+                        Some((0..n).map(|i| (b'a' + (i % 26) as u8) as char).collect())
+                    } else {
+                        None
+                    },
+                    card_type: if some(rng) { Some(rng.next_u64() as u8) } else { None },
+                })
+            } else {
+                None
+            },
         }
     }
+}
+
+/// The optional BMPs of an Authorization / Reservation, by the reference codec.
+fn ref_opt(mut pkt: Pkt, opt: &Option<OptIn>) -> Pkt {
+    let Some(o) = opt else { return pkt };
+    if let Some(v) = o.expiry {
+        pkt = pkt.bcd(0x0e, v as u64);
+    }
+    if let Some(v) = o.timeout {
+        pkt = pkt.byte(0x01, v);
+    }
+    if let Some(v) = o.max_status {
+        pkt = pkt.byte(0x02, v);
+    }
+    if let Some(v) = o.pump {
+        pkt = pkt.byte(0x05, v);
+    }
+    if let Some(t) = &o.text {
+        pkt = pkt.raw(0x3c, t.as_bytes());
+    }
+    if let Some(v) = o.card_type {
+        pkt = pkt.byte(0x8a, v);
+    }
+    pkt
 }
 
 fn bmp60(token: &str) -> Tlv {
@@ -275,17 +333,20 @@ pub fn ref_command(id: SeqId, p: &InParams) -> Pkt {
         ResetTerminal => Pkt::new(0x06, 0x18),
         Diagnosis => Pkt::new(0x06, 0x70).tlv(&[Tlv::prim(0x1b, &[p.byte % 5 + 1])]),
         EndOfDay => Pkt::new(0x06, 0x50).pos(&pw),
-        Authorization => Pkt::new(0x06, 0x01)
-            .bcd(0x04, p.amount)
-            .bcd(0x49, p.currency as u64)
-            .byte(0x19, p.byte)
-            .tlv(&[bmp60(&p.token)]),
-        Reservation => Pkt::new(0x06, 0x22)
-            .bcd(0x04, p.amount)
-            .bcd(0x49, p.currency as u64)
-            .byte(0x19, p.byte)
-            .bcd(0x0b, (p.terminal_id % 1_000_000) as u64)
-            .tlv(&[bmp60(&p.token)]),
+        Authorization => ref_opt(
+            Pkt::new(0x06, 0x01).bcd(0x04, p.amount).bcd(0x49, p.currency as u64).byte(0x19, p.byte),
+            &p.opt,
+        )
+        .tlv(&[bmp60(&p.token)]),
+        Reservation => ref_opt(
+            Pkt::new(0x06, 0x22)
+                .bcd(0x04, p.amount)
+                .bcd(0x49, p.currency as u64)
+                .byte(0x19, p.byte)
+                .bcd(0x0b, (p.terminal_id % 1_000_000) as u64),
+            &p.opt,
+        )
+        .tlv(&[bmp60(&p.token)]),
         PartialReversal => Pkt::new(0x06, 0x23)
             .bcd(0x87, p.receipt as u64)
             .bcd(0x04, p.amount)
@@ -621,6 +682,12 @@ pub async fn drive(
                         bmp_data: p.token.clone(),
                     }),
                 }),
+                expiry_date: p.opt.as_ref().and_then(|o| o.expiry).map(|v| v as usize),
+                timeout: p.opt.as_ref().and_then(|o| o.timeout),
+                maximum_no_of_status_info: p.opt.as_ref().and_then(|o| o.max_status),
+                pump_no: p.opt.as_ref().and_then(|o| o.pump),
+                additional_text: p.opt.as_ref().and_then(|o| o.text.clone()),
+                zvt_card_type: p.opt.as_ref().and_then(|o| o.card_type),
                 ..packets::Authorization::default()
             }
         ),
@@ -632,6 +699,12 @@ pub async fn drive(
                 payment_type: Some(p.byte),
                 trace_number: Some((p.terminal_id % 1_000_000) as usize),
                 tlv: bmp(),
+                expiry_date: p.opt.as_ref().and_then(|o| o.expiry).map(|v| v as usize),
+                timeout: p.opt.as_ref().and_then(|o| o.timeout),
+                maximum_no_of_status_info: p.opt.as_ref().and_then(|o| o.max_status),
+                pump_no: p.opt.as_ref().and_then(|o| o.pump),
+                additional_text: p.opt.as_ref().and_then(|o| o.text.clone()),
+                zvt_card_type: p.opt.as_ref().and_then(|o| o.card_type),
                 ..packets::Reservation::default()
             }
         ),
